@@ -150,4 +150,127 @@ theorem finishLoop_motion_sound_h (hw : 0 < w) (s : Rebuild w) (ps : List (Rebui
   exact ⟨hos, loopMotion_all_sound_h hw ctx hnN htrip hcanon (hall.toAll n hne) hrf
     (pendingSet_spec sub C) hamo⟩
 
+/-! ### `compare` sound on normal forms only (`_c` variants)
+
+`compare` ends by comparing `Expr.constantPart`s, which is only meaningful for expressions in normal form; these
+variants ask for the soundness of `compare` on `Canon` expressions only, and for the written (`known`) and
+pending expressions of the body state to be in normal form. -/
+
+theorem finishLoop_ctx_c (s : Rebuild w) (ps : List (Rebuild w)) (sub : Rebuild w)
+    (cond : Int) (C : List Int) (m0 : Mem w) (body : Nat → Mem w → Mem w) (N : Nat)
+    (hC : constantsAmong s ps sub (sIns (possibleReads sub) cond ++
+      (pendingSorted sub sub).filter (fun x => !(sIns (possibleReads sub) cond).contains x)) = .ok C)
+    (hreadsAsc : SAsc sub.reads) (hpendAsc : KeysAsc sub.pending)
+    (hcanon : ∀ v p, mGet sub.pending v = some p → Canon p)
+    (hcanonW : ∀ v e, mGet sub.written v = some (.known e) → Canon e)
+    (hcmp : ∀ v e, Canon e → compare s ps (Expr.var v) e = .ok true → ev e m0 = m0 v)
+    (hknown : ∀ i c, getConstant s ps i = some c → m0 i = c)
+    (hbody : BodyFactsH sub body (run body sub.pending m0) N)
+    (hgb : GetBothFactsH s ps sub (run body sub.pending m0) N) :
+    MotionCtxH s ps sub C
+      (linearAmong s ps sub C (sIns (possibleReads sub) cond ++ pendingSorted sub sub)) m0 body N := by
+  obtain ⟨hrun, hmid⟩ := constantsAmong_sound_c s ps sub _ C m0 body N hC
+    (nodup_constVars sub cond hreadsAsc hpendAsc) hcanon hcanonW hcmp hbody
+  have hmemC : ∀ c, C.contains c = true → c ∈ C := fun c h => by simpa using h
+  constructor
+  · exact fun k hk c hc => hrun k hk c (hmemC c hc)
+  · exact fun k hk c hc => hmid k hk c (hmemC c hc)
+  · exact fun i c _ h => hknown i c h
+  · intro v inc hv
+    exact linearAmong_sound_h s ps sub C _ (run body sub.pending m0) N hgb
+      (fun k hk c hc => hrun k hk c hc) v inc hv
+  · exact hbody
+
+/-- **Prefix theorem for `finishLoop`, `compare` sound on normal forms.** -/
+theorem finishLoop_prefix_sound_c (s : Rebuild w) (ps : List (Rebuild w)) (sub sub' : Rebuild w)
+    (cond : Int) (L : OptLoop w) (C : List Int) (B D A : List (Int × Expr w)) (os os' : Orders)
+    (m0 : Mem w) (body : Nat → Mem w → Mem w) (N N' : Nat)
+    (hC : constantsAmong s ps sub (sIns (possibleReads sub) cond ++
+      (pendingSorted sub sub).filter (fun x => !(sIns (possibleReads sub) cond).contains x)) = .ok C)
+    (hfold : (pendingSorted sub sub).foldlM
+      (motionStepM s ps (sIns (possibleReads sub) cond) C
+        (linearAmong s ps sub C (sIns (possibleReads sub) cond ++ pendingSorted sub sub))
+        ((pendingSorted sub sub).filter (fun x => !C.contains x)) L) (sub, [], [], []) os
+      = .ok ((sub', B, D, A), os'))
+    (hreadsAsc : SAsc sub.reads) (hpendAsc : KeysAsc sub.pending)
+    (hcanon : ∀ v p, mGet sub.pending v = some p → Canon p)
+    (hcanonW : ∀ v e, mGet sub.written v = some (.known e) → Canon e)
+    (hcmp : ∀ v e, Canon e → compare s ps (Expr.var v) e = .ok true → ev e m0 = m0 v)
+    (hknown : ∀ i c, getConstant s ps i = some c → m0 i = c)
+    (hbody : BodyFactsH sub body (run body sub.pending m0) N)
+    (hgb : GetBothFactsH s ps sub (run body sub.pending m0) N)
+    (hNI : ∀ k, k < N → ∀ (m' : Mem w) (Z : Int → Prop),
+      (∀ z, Z z → (sIns (possibleReads sub) cond).contains z = false) →
+      (∀ v, ¬ Z v → m' v = run body sub.pending m0 k v) →
+      ∀ v, ¬ Z v → body k m' v = body k (run body sub.pending m0 k) v)
+    (hframe : ∀ k, k < N → ∀ (m' : Mem w) v, mGet sub.written v = none → body k m' v = m' v)
+    (hN' : N' ≤ N) (hamo : L.atMostOnce = true → N' ≤ 1) :
+    os' = os ∧
+    MotionAllE s ps sub (sIns (possibleReads sub) cond) C
+      (linearAmong s ps sub C (sIns (possibleReads sub) cond ++ pendingSorted sub sub))
+      ((pendingSorted sub sub).filter (fun x => !C.contains x)) L B D A ∧
+    (∀ k, k < N' → ∀ r, (sIns (possibleReads sub) cond).contains r = true →
+      run body D (Mem.par B m0) k r = run body sub.pending m0 k r) ∧
+    (∀ k, k ≤ N' → ∀ v, ¬ Differ' C B D sub.pending v →
+      run body D (Mem.par B m0) k v = run body sub.pending m0 k v) ∧
+    (∀ k, k < N' →
+      (∀ v, run body D (Mem.par B m0) k v = run body sub.pending m0 k v →
+        mid body D (Mem.par B m0) k v = mid body sub.pending m0 k v) ∧
+      (∀ r, (sIns (possibleReads sub) cond).contains r = true →
+        mid body D (Mem.par B m0) k r = mid body sub.pending m0 k r)) := by
+  have ctx := finishLoop_ctx_c s ps sub cond C m0 body N hC hreadsAsc hpendAsc hcanon hcanonW hcmp
+    hknown hbody hgb
+  obtain ⟨hos, hall⟩ := motionFold_spec_e s ps sub (sIns (possibleReads sub) cond) C _ _ L
+    (pendingSorted sub sub) sub' B D A os os' (nodup_pendingSorted sub sub hpendAsc)
+    (fun v p hp => (mem_pendingSorted sub sub v).2 (mem_mKeys_of_mGet hp)) hfold
+  have hrf : ReadFactsH sub (sIns (possibleReads sub) cond) body (run body sub.pending m0) N :=
+    ⟨fun v p x hp hx hne => pendReads_possibleReads sub cond v p x hp hx hne, hNI, hframe⟩
+  obtain ⟨h1, h2, h3⟩ := loopMotion_prefix_sound ctx hall.toBD hrf N' hN' hamo
+  exact ⟨hos, hall, h1, h2, h3⟩
+
+/-- **`finishLoop_motion_sound` with a horizon, `compare` sound on normal forms.** -/
+theorem finishLoop_motion_sound_c (hw : 0 < w) (s : Rebuild w) (ps : List (Rebuild w))
+    (sub sub' : Rebuild w) (cond : Int) (L : OptLoop w) (C : List Int) (B D A : List (Int × Expr w))
+    (os os' : Orders) (m0 : Mem w) (body : Nat → Mem w → Mem w) (N n : Nat)
+    (hC : constantsAmong s ps sub (sIns (possibleReads sub) cond ++
+      (pendingSorted sub sub).filter (fun x => !(sIns (possibleReads sub) cond).contains x)) = .ok C)
+    (hfold : (pendingSorted sub sub).foldlM
+      (motionStepM s ps (sIns (possibleReads sub) cond) C
+        (linearAmong s ps sub C (sIns (possibleReads sub) cond ++ pendingSorted sub sub))
+        ((pendingSorted sub sub).filter (fun x => !C.contains x)) L) (sub, [], [], []) os
+      = .ok ((sub', B, D, A), os'))
+    (hreadsAsc : SAsc sub.reads) (hpendAsc : KeysAsc sub.pending)
+    (hcanon : ∀ v p, mGet sub.pending v = some p → Canon p)
+    (hcanonW : ∀ v e, mGet sub.written v = some (.known e) → Canon e)
+    (hcmp : ∀ v e, Canon e → compare s ps (Expr.var v) e = .ok true → ev e m0 = m0 v)
+    (hknown : ∀ i c, getConstant s ps i = some c → m0 i = c)
+    (hbody : BodyFactsH sub body (run body sub.pending m0) N)
+    (hgb : GetBothFactsH s ps sub (run body sub.pending m0) N)
+    (hNI : ∀ k, k < N → ∀ (m' : Mem w) (Z : Int → Prop),
+      (∀ z, Z z → (sIns (possibleReads sub) cond).contains z = false) →
+      (∀ v, ¬ Z v → m' v = run body sub.pending m0 k v) →
+      ∀ v, ¬ Z v → body k m' v = body k (run body sub.pending m0 k) v)
+    (hframe : ∀ k, k < N → ∀ (m' : Mem w) v, mGet sub.written v = none → body k m' v = m' v)
+    (hnN : n ≤ N) (htrip : TripFacts L n m0) (hamo : L.atMostOnce = true → n ≤ 1)
+    (hne : L.noEffect = true → n = 0) :
+    os' = os ∧
+    (∀ k, k < n → ∀ r, (sIns (possibleReads sub) cond).contains r = true →
+      run body D (Mem.par B m0) k r = run body sub.pending m0 k r) ∧
+    (∀ k, k ≤ n → ∀ v, ¬ Differ C B A v →
+      run body D (Mem.par B m0) k v = run body sub.pending m0 k v) ∧
+    (∀ k, k ≤ n → ∀ v, ¬ Differ' C B D sub.pending v →
+      run body D (Mem.par B m0) k v = run body sub.pending m0 k v) ∧
+    (∀ v, mGet A v = none → run body D (Mem.par B m0) n v = run body sub.pending m0 n v) ∧
+    (0 < n → Mem.par A (run body D (Mem.par B m0) n) = run body sub.pending m0 n) ∧
+    (n = 0 → Mem.par B m0 = m0) := by
+  have ctx := finishLoop_ctx_c s ps sub cond C m0 body N hC hreadsAsc hpendAsc hcanon hcanonW hcmp
+    hknown hbody hgb
+  obtain ⟨hos, hall⟩ := motionFold_spec_e s ps sub (sIns (possibleReads sub) cond) C _ _ L
+    (pendingSorted sub sub) sub' B D A os os' (nodup_pendingSorted sub sub hpendAsc)
+    (fun v p hp => (mem_pendingSorted sub sub v).2 (mem_mKeys_of_mGet hp)) hfold
+  have hrf : ReadFactsH sub (sIns (possibleReads sub) cond) body (run body sub.pending m0) N :=
+    ⟨fun v p x hp hx hne => pendReads_possibleReads sub cond v p x hp hx hne, hNI, hframe⟩
+  exact ⟨hos, loopMotion_all_sound_h hw ctx hnN htrip hcanon (hall.toAll n hne) hrf
+    (pendingSet_spec sub C) hamo⟩
+
 end Hpbf.OptLoop
